@@ -2,6 +2,7 @@ import PfModel.DriverVal
 import PfModel.Model.MapPieces
 import PfModel.Model.MapPiecesSub
 import PfModel.Model.MapPiecesFlow
+import PfModel.Lemmas.MapTotal
 /-! Driver for C06: `pieces.run` (a sequence of `map(fixed_indices=…, cleanup=False)` on one folder), `learners.make`
     (`create_learners`), `learners.exec` (a sequence of `learner.function(x)` calls on the shared store), `sel.indices`
     (the positions an `int | slice` selects on an axis).  The function/MapSpec schema is that of `Driver/C01.lean`. -/
@@ -110,9 +111,12 @@ def handle (m : String) (a : Json) : R Json := do
       | .error e => return putMErr e
       | .ok rF =>
         let accepted (fx : List (String × Sel)) : Bool := match validateFixed sub inputs (some fx) with | .ok _ => true | .error _ => false
+        -- round 3: `conforms` = C01's `Conforms` of the (narrowed) request — the hypothesis under which `flowWF` is DERIVED for every
+        -- accepted dictionary (`C06_flowWF_of_conforms`); where it is false `flowWF` is only evaluated
         return jObj [("wf", jList jBool (fixed.map fun fx => flowWF sub rF.res.shapes rF.res.masks inputs fx)),
                      ("accepted", jList jBool (fixed.map accepted)),
-                     ("nodup", jBool (decide (akeys rF.store).Nodup))]
+                     ("nodup", jBool (decide (akeys rF.store).Nodup)),
+                     ("conforms", jBool (PF.C01.Conforms sub inputs internal))]
   | "sel.indices" =>
     let d ← natF a "d"
     let s ← getSel (← fld a "sel")
